@@ -1,6 +1,7 @@
 package rules
 
 import (
+	"fmt"
 	"go/token"
 	"go/types"
 	"sort"
@@ -350,4 +351,158 @@ func checkTLSSettingsRole(c *Ctx, res *report.Result) {
 		res.Undec(rule, "settings-to-constructor call sites", "", "fewer than the 5 sites confirmed by hand (makeServerOptions, buildTLSTCPClient, intra-proxy dial, mux receiver, mux establisher)")
 	}
 	res.Analysed["tls_settings_sites"] = n
+}
+
+// checkIsEnabledTruthTable (O19.6): TLSConfig.IsEnabled decides whether a listener/dialer uses TLS at all. It only
+// compares string fields with "", so it is evaluated exhaustively over the emptiness of the fields it reads:
+// a certificate + key pair, or a CA server name, must switch TLS on (a stricter predicate silently turns a
+// configured endpoint into a plaintext one).
+func checkIsEnabledTruthTable(c *Ctx, res *report.Result) {
+	rule := "O19.6"
+	f := resolve(c, res, rule, anchor{"encryption", "TLSConfig", "IsEnabled"})
+	if f == nil {
+		return
+	}
+	// fields compared with ""
+	fieldOf := func(v ssa.Value) string {
+		if _, fld, ok := flow.FieldLoadOf(flow.ResolveLoad(v)); ok {
+			return fld
+		}
+		if _, fld, ok := flow.FieldLoadOf(v); ok {
+			return fld
+		}
+		return ""
+	}
+	used := map[string]bool{}
+	for _, b := range f.Blocks {
+		for _, ins := range b.Instrs {
+			if bo, ok := ins.(*ssa.BinOp); ok && (bo.Op == token.NEQ || bo.Op == token.EQL) {
+				if s0, isS := flow.ConstString(bo.Y); isS && s0 == "" {
+					if fld := fieldOf(bo.X); fld != "" {
+						used[fld] = true
+					}
+				}
+			}
+		}
+	}
+	var names []string
+	for k := range used {
+		names = append(names, k)
+	}
+	sort.Strings(names)
+	if len(names) == 0 || len(names) > 6 {
+		res.Undec(rule, "TLSConfig.IsEnabled: fields tested for emptiness", fnPos(c.Prog, f), fmt.Sprintf("%d fields", len(names)))
+		return
+	}
+	type env map[string]bool // field -> non-empty
+	var eval func(v ssa.Value, e env, prev *ssa.BasicBlock, d int) (bool, bool)
+	eval = func(v ssa.Value, e env, prev *ssa.BasicBlock, d int) (bool, bool) {
+		if d > 20 {
+			return false, false
+		}
+		if b, ok := flow.ConstBool(v); ok {
+			return b, true
+		}
+		switch x := v.(type) {
+		case *ssa.BinOp:
+			if s0, isS := flow.ConstString(x.Y); isS && s0 == "" {
+				if fld := fieldOf(x.X); fld != "" {
+					if x.Op == token.NEQ {
+						return e[fld], true
+					}
+					if x.Op == token.EQL {
+						return !e[fld], true
+					}
+				}
+			}
+			a, oka := eval(x.X, e, prev, d+1)
+			b, okb := eval(x.Y, e, prev, d+1)
+			if oka && okb {
+				switch x.Op {
+				case token.AND, token.LAND:
+					return a && b, true
+				case token.OR, token.LOR:
+					return a || b, true
+				case token.EQL:
+					return a == b, true
+				case token.NEQ:
+					return a != b, true
+				}
+			}
+		case *ssa.UnOp:
+			if x.Op == token.NOT {
+				a, ok := eval(x.X, e, prev, d+1)
+				return !a, ok
+			}
+		case *ssa.Phi:
+			for i, p := range x.Block().Preds {
+				if p == prev {
+					return eval(x.Edges[i], e, prev, d+1)
+				}
+			}
+		}
+		return false, false
+	}
+	run := func(e env) (bool, bool) {
+		b := f.Blocks[0]
+		var prev *ssa.BasicBlock
+		phiPrev := map[*ssa.BasicBlock]*ssa.BasicBlock{}
+		for steps := 0; steps < 100; steps++ {
+			phiPrev[b] = prev
+			last := b.Instrs[len(b.Instrs)-1]
+			switch t := last.(type) {
+			case *ssa.Return:
+				rs := flow.Ret(t)
+				if len(rs) != 1 {
+					return false, false
+				}
+				return eval(rs[0], e, prev, 0)
+			case *ssa.If:
+				cv, ok := eval(t.Cond, e, prev, 0)
+				if !ok {
+					return false, false
+				}
+				prev = b
+				if cv {
+					b = b.Succs[0]
+				} else {
+					b = b.Succs[1]
+				}
+			case *ssa.Jump:
+				prev = b
+				b = b.Succs[0]
+			default:
+				return false, false
+			}
+		}
+		return false, false
+	}
+	bad := ""
+	undecided := false
+	for mask := 0; mask < 1<<len(names); mask++ {
+		e := env{}
+		for i, n := range names {
+			e[n] = mask&(1<<i) != 0
+		}
+		got, ok := run(e)
+		if !ok {
+			undecided = true
+			break
+		}
+		must := (e["CertificatePath"] && e["KeyPath"]) || e["CAServerName"]
+		if must && !got {
+			var set []string
+			for _, n := range names {
+				if e[n] {
+					set = append(set, n)
+				}
+			}
+			bad = "with " + strings.Join(set, ", ") + " set, IsEnabled() is false"
+		}
+	}
+	if undecided {
+		res.Undec(rule, "TLSConfig.IsEnabled: truth table over the emptiness of "+strings.Join(names, ", "), fnPos(c.Prog, f), "the predicate is not a boolean combination of emptiness tests")
+		return
+	}
+	res.Check(bad == "", rule, "TLSConfig.IsEnabled: a certificate/key pair or a CA server name switches TLS on", fnPos(c.Prog, f), fmt.Sprintf("exhaustive over %d combinations of %s", 1<<len(names), strings.Join(names, ", ")), bad+": an endpoint configured for TLS is built as a plaintext endpoint (the providers and makeServerOptions consult IsEnabled before anything else)")
 }
